@@ -215,8 +215,28 @@ class Check:
                       f, indent=1, default=str)
         return path
 
+    def judge_entry_points(self):
+        """acceptance observations made through harness/common.py accepts(): the entry points to
+        validation must have agreed (spec/Trace_Entry.tla)"""
+        from . import common
+        if not common.ENTRY_OBS:
+            return
+        events = []
+        for (no_errors, has_errors, eq, ne, vof), slot in sorted(common.ENTRY_OBS.items(), key=repr):
+            events.append({"id": len(events) + 1, "no_errors": no_errors, "has_errors": has_errors, "eq": eq,
+                           "ne": ne, "vof": vof, "count": slot["count"], "example": slot["example"]})
+        slim = [{k: e[k] for k in ("id", "no_errors", "has_errors", "eq", "ne", "vof")} for e in events]
+        verdicts = self.validate_events("Trace_Entry", slim, name="%s_Trace_Entry" % self.pid)
+        self.counts["acceptance_observations"] = sum(e["count"] for e in events)
+        for e in events:
+            v = verdicts[e["id"]][0]
+            if v.startswith("FAIL"):
+                self.fail(v.split(":")[1], None, {"entry_points": e})
+        common.ENTRY_OBS.clear()
+
     def finish(self, level="model_checking", rule=None, extra=None):
         os.makedirs(EVIDENCE, exist_ok=True)
+        self.judge_entry_points()
         for sig, k in sorted(self.known_seen.items()):
             f = self.open_sigs[sig]
             print("KNOWN-FINDING: property=%s %s: %s (%d case(s) this run, e.g. %s)" % (
